@@ -185,6 +185,25 @@ def judge(case, std):
         out.append(("enabled:rejected:" + e.klass(), (e.msg or "")[:200]))
     elif canon(e.tree) != ref:
         out.append(("enabled:tree-differs", "A = sentinel lines enabled, B = plain program; " + first_diff(canon(e.tree), ref)))
+    # the same through a FILE reader (for <= 1 hidden statement): the option is
+    # a constructor argument of both reader classes
+    if len(case["S"]) <= 1:
+        import os, tempfile
+        from mc.base import FortranFileReader
+
+        fd, path = tempfile.mkstemp(prefix="c15_", suffix=".f90" if case["form"] == "free" else ".f")
+        try:
+            with os.fdopen(fd, "w") as f:
+                f.write(src)
+            ef = try_parse(None, std, reader_factory=lambda: FortranFileReader(path, include_omp_conditional_lines=True, ignore_comments=True))
+            df = try_parse(None, std, reader_factory=lambda: FortranFileReader(path, ignore_comments=True))
+        finally:
+            os.unlink(path)
+        if ef.ok != e.ok or (ef.ok and e.ok and canon(ef.tree) != canon(e.tree)):
+            out.append(("enabled-file-reader:differs-from-string-reader", "file reader: %s\nstring reader: %s" % (canon(ef.tree)[:300] if ef.ok else ef.klass(), canon(e.tree)[:300] if e.ok else e.klass())))
+        m0f = try_parse(case["minus"], std)
+        if m0f.ok and (not df.ok or canon(df.tree) != canon(m0f.tree)):
+            out.append(("disabled-file-reader:differs", "file reader with the option off: %s" % (df.klass() if not df.ok else first_diff(canon(df.tree), canon(m0f.tree)))))
     # enabled, comments kept: '!$omp' lines are comments, code equal
     ek = try_parse(src, std, include_omp_conditional_lines=True, ignore_comments=False)
     if not ek.ok:
@@ -277,7 +296,7 @@ def run(task):
             continue
         stats = {}
         n = 0
-        nvar = 7
+        nvar = 7 if (k is None or k <= 1 or task[1] != "quick") else 4  # quick: pairs of hidden statements over 4 variants
         if k is None:
             # small nests: all subsets if the product is small, else k = 2
             cnt = 0
